@@ -27,7 +27,15 @@ SKIP_DIRS = {".git", "notebook", "scripts", "tests", "docs", ".github"}
 
 def load_corpus() -> List[dict]:
     with open(os.path.join(VERIF, "selftest", "corpus.json")) as fh:
-        return json.load(fh)["edits"]
+        edits = json.load(fh)["edits"]
+    vp = os.path.join(VERIF, "selftest", "suite_verdicts.json")
+    if os.path.exists(vp):
+        with open(vp) as fh:
+            verdicts = json.load(fh)
+        for e in edits:
+            if e.get("suite") == "unknown" and e["id"] in verdicts:
+                e["suite"] = verdicts[e["id"]]["suite"]
+    return edits
 
 
 def scratch_copy(src: str) -> str:
